@@ -933,7 +933,7 @@ func TestC30(t *testing.T) {
 		a        *adapter
 		episodes int
 		steps    int
-	}{{cos, r.N(60, 900), r.N(22, 40)}, {okx, r.N(16, 300), r.N(18, 40)}} {
+	}{{cos, r.N(60, 900), r.N(22, 40)}, {okx, r.N(32, 300), r.N(20, 40)}} {
 		for ep := 0; ep < x.episodes; ep++ {
 			rng := r.Rand(fmt.Sprintf("%s-hdr-%d", x.a.name, ep))
 			mn := maxN
